@@ -205,8 +205,9 @@ class Probe(SourceProxy):
             self._root.__exit__(exc_type, exc, tb)
             return
 
-        if self not in global_probes:
-            # Already deactivated (e.g. deactivate() in the with block)
+        if not self._live:
+            # Already deactivated, or being deactivated (e.g. deactivate()
+            # in the with block, or by a subscriber told about the end)
             return
         self._live = False
 
